@@ -29,7 +29,7 @@ Theorem C04_data_errors_located :
     (forall j f idx b, slot_of c pos j = SFile f idx b ->
        (0 < block_len bs (cf_size f) idx)%N
        /\ (forall g, fs_find (r_fs s) j (cf_name f) = Some g -> (ff_size g <= cf_size f)%N)
-       /\ (co_fix o = true \/ fl_missing (get_fl (r_flags s) (j, cf_name f)) = false)) ->
+       /\ (co_fix o = true \/ fl_missing (get_fl (r_flags s) (j, cf_name f)) = false \/ fs_find (r_fs s) j (cf_name f) = None)) ->
     let a := data_phase hashf bs newino now o c pos s in
     r_tags (da_st a) = r_tags s ++ flat_map (tag_of hashf bs o c pos s) (seq 0 (length (c_disks c)))
     /\ r_err (da_st a) = r_err s + length (filter (is_bad hashf bs c pos s) (seq 0 (length (c_disks c))))
@@ -72,7 +72,7 @@ Theorem C04_check_no_false_alarm :
     (forall j f idx b, slot_of c pos j = SFile f idx b ->
        (0 < block_len bs (cf_size f) idx)%N
        /\ (forall g, fs_find (r_fs s) j (cf_name f) = Some g -> (ff_size g <= cf_size f)%N)
-       /\ (co_fix o = true \/ fl_missing (get_fl (r_flags s) (j, cf_name f)) = false)) ->
+       /\ (co_fix o = true \/ fl_missing (get_fl (r_flags s) (j, cf_name f)) = false \/ fs_find (r_fs s) j (cf_name f) = None)) ->
     (forall j, is_bad hashf bs c pos s j = false) ->
     (forall l, l < nlev -> par_matches (map (bufval bs c pos s) (seq 0 (length (c_disks c)))) (prow (r_par s) pos l) = true) ->
     (forall j f idx b, slot_of c pos j = SFile f idx b ->
